@@ -207,9 +207,50 @@ pub fn feed_chunks(stream: &[u8], cuts: &[usize]) -> Result<(Vec<Vec<u8>>, usize
     Ok((delivered, total))
 }
 
+/// second caller model: each time new data arrives the caller runs a MsgFrameIter over what it holds, takes the
+/// frames it yields and drops `consumed()` bytes
+pub fn feed_chunks_iter(stream: &[u8], cuts: &[usize]) -> Result<(Vec<Vec<u8>>, usize), (String, String)> {
+    let mut buf: Vec<u8> = Vec::new();
+    let mut delivered = Vec::new();
+    let mut total = 0usize;
+    let mut prev = 0usize;
+    let mut bounds: Vec<usize> = cuts.iter().map(|c| (*c).min(stream.len())).collect();
+    bounds.sort();
+    bounds.push(stream.len());
+    for b in bounds {
+        buf.extend_from_slice(&stream[prev..b]);
+        prev = b;
+        let c = {
+            let mut it = MsgFrameIter::new(&buf);
+            let mut guard = 0usize;
+            for m in &mut it {
+                delivered.push(m.frame_data().to_vec());
+                guard += 1;
+                if guard > buf.len() + 1 {
+                    return Err(("c06:iterator-runs-on".into(), "iterator keeps yielding frames".into()));
+                }
+            }
+            it.consumed()
+        };
+        if c > buf.len() {
+            return Err(("c06:consumed-exceeds-len".into(), format!("iterator consumed {} > buffered {}", c, buf.len())));
+        }
+        total += c;
+        buf.drain(..c);
+    }
+    Ok((delivered, total))
+}
+
 pub fn oracle_chunks(stream: &[u8], cuts: &[usize]) -> Result<(), (String, String)> {
     let (d1, t1) = feed_chunks(stream, &[])?;
     let (d2, t2) = feed_chunks(stream, cuts)?;
+    let (d3, t3) = feed_chunks_iter(stream, cuts)?;
+    if d3 != d1 || t3 != t1 {
+        return Err((
+            "c06:iterator-chunked-differs-from-oneshot".into(),
+            format!("one-shot: {} frames, consumed {}; chunked through MsgFrameIter ({} cuts): {} frames, consumed {}", d1.len(), t1, cuts.len(), d3.len(), t3),
+        ));
+    }
     if d1 != d2 || t1 != t2 {
         return Err((
             "c06:chunked-differs-from-oneshot".into(),
@@ -275,8 +316,8 @@ pub fn run(ctx: &Ctx, replay: Option<&J>, chunked: bool) -> CheckResult {
             .to_string()
     } else {
         "C05 streams x chunk schedules {one-byte chunks, random cut positions incl. duplicates (empty chunks), cuts forced at \
-         preamble/length/payload/checksum offsets of 0xD3 candidates}; oracle (model-based history): caller loop (append chunk, scan until \
-         no frame, drop consumed) gives the same delivered frames and total consumed as one-shot scanning and as the reference model. \
+         preamble/length/payload/checksum offsets of 0xD3 candidates}; oracle (model-based history): two caller loops (append chunk; either call next_msg_frame until \
+         no frame or run a MsgFrameIter and use consumed(); drop the consumed bytes) gives the same delivered frames and total consumed as one-shot scanning and as the reference model. \
          non-trivial = >=1 cut strictly inside a frame that is delivered; distinct = hash of (stream, cuts)"
             .to_string()
     };
